@@ -205,7 +205,29 @@ def run(ctx):
     hb = [st for st in ast.walk(bw) if isinstance(st, ast.Assign) and norm(st.targets[0]) == "Pout" and norm(st.value).replace(" ", "") == "Pout/2"]
     ctx.check(bool(hb), "R1", scf, hb[0] if hb else bw, "SCF.backward", hb[0] if hb else "Pout /2", "SCF adjoint halves the unrestricted density like the forward drivers",
               "SCF.backward does not halve the unrestricted density: the adjoint linearises a different map than the forward solver iterates")
-    # density builders
+    # density builders: by value first (sa/densitymodel.py); where that holds, the text-shaped reading of the factory below is a spelling matter
+    ctx.rule("R8", "density builders by value: for every diagonalisation arm of make_Pnew_factory (forward / unrolled, restricted / unrestricted) and padded, homogeneous, "
+                   "equal-size-different-layout and single batches, each molecule gets the aufbau projector of its own Fock block (shared with C03-R9, C05-R6) [EA+]")
+    from ..densitymodel import check_density_builders
+    bv_ok = False
+    try:
+        bv_ok = check_density_builders(ctx, "R8")
+    except AnalysisError as e_:
+        ctx.note(f"density builders not interpretable ({str(e_)[:120]}); shape-based reading only")
+    if bv_ok:
+        ctx.demote = lambda rid, rel, function, message: ("decided by value in R8" if rid == "R1" and function == "make_Pnew_factory" and "SP2" not in message else None)
+    try:
+        _factory_shape(ctx, repo, scf)
+    except AnalysisError as e_:
+        if not bv_ok:
+            raise
+        ctx.note(f"shape-based reading of make_Pnew_factory stopped ({str(e_)[:100]}); the diagonalisation arms are decided by value in R8")
+    finally:
+        ctx.demote = None
+    _rest_of_r1(ctx, repo, scf)
+
+
+def _factory_shape(ctx, repo, scf):
     mf = scf.func("make_Pnew_factory")
     cores = [n for n in ast.walk(mf) if (isinstance(n, ast.Assign) and norm(n.targets[0]) == "core_step") or (isinstance(n, ast.FunctionDef) and n.name == "core_step")]
     n_core = 0
@@ -216,14 +238,47 @@ def run(ctx):
             okc = (isinstance(body, ast.Subscript) and norm(body.slice) in ("1", "0") and isinstance(body.value, ast.Call)
                    and callee_attr(body.value) in ("sym_eig_trunc", "sym_eig_trunc1", "sym_eig_truncd", "sym_eig_trunc1d", "Fermi_Q") and "nOcc" in names_in(body.value))
             what = norm(body)
+        elif isinstance(c, ast.FunctionDef) and not any(callee_attr(x) == "SP2" for x in calls_in(c)):
+            # a named definition of a diagonalisation arm: same reading as the lambda form, on its return value
+            rets_ = [r for r in ast.walk(c) if isinstance(r, ast.Return) and r.value is not None]
+            body = rets_[0].value if len(rets_) == 1 else None
+            okc = (isinstance(body, ast.Subscript) and norm(body.slice) in ("1", "0") and isinstance(body.value, ast.Call)
+                   and callee_attr(body.value) in ("sym_eig_trunc", "sym_eig_trunc1", "sym_eig_truncd", "sym_eig_trunc1d", "Fermi_Q") and "nOcc" in names_in(body.value))
+            what = norm(body) if body is not None else c.name
         else:
             txt = norm(c)
             okc = "SP2(D, nOcc, sp2[1])" in txt and "packer(" in txt and "unpacker(D2" in txt
             what = "SP2 path"
+            if not okc and isinstance(c, ast.FunctionDef) and len(c.args.args) >= 5:
+                # by structure: purify the packed Fock matrix of the first parameter with the occupation parameter and the requested tolerance, return the unpacked result
+                fpar, occ = c.args.args[0].arg, c.args.args[4].arg
+                ldefs = {}
+                for st_ in ast.walk(c):
+                    if isinstance(st_, ast.Assign) and len(st_.targets) == 1 and isinstance(st_.targets[0], ast.Name):
+                        ldefs.setdefault(st_.targets[0].id, []).append(st_.value)
+
+                def reaches(e_, name, depth=0):
+                    for x_ in ast.walk(e_):
+                        if isinstance(x_, ast.Name) and x_.id == name:
+                            return True
+                        if isinstance(x_, ast.Name) and x_.id in ldefs and depth < 6 and any(reaches(v_, name, depth + 1) for v_ in ldefs[x_.id]):
+                            return True
+                    return False
+                sp2_calls = [x_ for x_ in calls_in(c) if callee_attr(x_) == "SP2" or (call_name(x_) or "") == "SP2"]
+                rets_ = [r_ for r_ in ast.walk(c) if isinstance(r_, ast.Return) and r_.value is not None]
+                if len(sp2_calls) == 1 and len(rets_) == 1 and len(sp2_calls[0].args) >= 3:
+                    a0, a1, a2 = sp2_calls[0].args[:3]
+                    res_names = [nm for nm, vs in ldefs.items() if any(v_ is sp2_calls[0] for v_ in vs)]
+                    okc = reaches(a0, fpar) and isinstance(a1, ast.Name) and a1.id == occ and norm(a2) == "sp2[1]" \
+                        and isinstance(rets_[0].value, ast.Call) and bool(res_names) and reaches(rets_[0].value, res_names[0]) and not isinstance(rets_[0].value.func, ast.Attribute)
         ctx.check(okc, "R1", scf, c, "make_Pnew_factory", what[:60], f"density builder `{what[:50]}` maps (F, nocc) to the occupied-space projector",
                   f"density builder `{what[:70]}` is not a (Fock, occupation) -> density map of the known solvers")
     if n_core < 5:
         raise AnalysisError("make_Pnew_factory: core_step variants not found")
+
+
+def _rest_of_r1(ctx, repo, scf):
+    import sympy as sp
     sp2 = repo.mod("seqm/seqm_functions/SP2.py").func("SP2")
     dflt = {a.arg: norm(dv) for a, dv in zip(sp2.args.args[-len(sp2.args.defaults):], sp2.args.defaults)}
     ret = [r for r in ast.walk(sp2) if isinstance(r, ast.Return)]
